@@ -59,7 +59,7 @@ func VerifC12_Fields() {
 	c12check(c07flowRemovedWith(k, k, vr.Choice("masked", 2) == 1))
 }
 
-var c12payloads = []string{"raw", "vlan-raw", "arp", "ipv4-udp-options", "ipv4-icmp", "ipv4-raw", "ipv6-udp", "ipv6-hbh-routing-fragment-icmp", "ipv6-raw"}
+var c12payloads = []string{"raw", "vlan-raw", "arp", "arp-long-hardware-address", "ipv4-udp-options", "ipv4-icmp", "ipv4-raw", "ipv6-udp", "ipv6-hbh-routing-fragment-icmp", "ipv6-raw"}
 
 func c12ethernet(kind int) protocol.Ethernet {
 	e := protocol.NewEthernet()
@@ -104,14 +104,22 @@ func c12ethernet(kind int) protocol.Ethernet {
 		copy(a.IPDst, vr.Bytes("arpipdst", 4))
 		e.Ethertype, e.Data = protocol.ARP_MSG, a
 	case 3:
-		e.Ethertype, e.Data = protocol.IPv4_MSG, ip4(protocol.Type_UDP, 2, udp())
+		// a non-Ethernet hardware type with 20-byte addresses (e.g. InfiniBand)
+		a, _ := protocol.NewARP(protocol.Type_Reply)
+		a.HWType, a.HWLength = 32, 20
+		a.HWSrc, a.HWDst = vr.Bytes("arphwsrc", 20), vr.Bytes("arphwdst", 20)
+		copy(a.IPSrc, vr.Bytes("arpipsrc", 4))
+		copy(a.IPDst, vr.Bytes("arpipdst", 4))
+		e.Ethertype, e.Data = protocol.ARP_MSG, a
 	case 4:
-		e.Ethertype, e.Data = protocol.IPv4_MSG, ip4(protocol.Type_ICMP, 0, icmp())
+		e.Ethertype, e.Data = protocol.IPv4_MSG, ip4(protocol.Type_UDP, 2, udp())
 	case 5:
-		e.Ethertype, e.Data = protocol.IPv4_MSG, ip4(99, 1, util.NewBuffer(vr.Bytes("raw", 7)))
+		e.Ethertype, e.Data = protocol.IPv4_MSG, ip4(protocol.Type_ICMP, 0, icmp())
 	case 6:
-		e.Ethertype, e.Data = protocol.IPv6_MSG, ip6(protocol.Type_UDP, udp())
+		e.Ethertype, e.Data = protocol.IPv4_MSG, ip4(99, 1, util.NewBuffer(vr.Bytes("raw", 7)))
 	case 7:
+		e.Ethertype, e.Data = protocol.IPv6_MSG, ip6(protocol.Type_UDP, udp())
+	case 8:
 		ip := ip6(protocol.Type_HBH, icmp())
 		ip.HbhHeader = &protocol.HopByHopHeader{NextHeader: protocol.Type_Routing, HEL: 0, Options: []*protocol.Option{{Type: vr.U8("opttype"), Length: 4, Data: vr.Bytes("optdata", 4)}}}
 		ip.RoutingHeader = &protocol.RoutingHeader{NextHeader: protocol.Type_Fragment, HEL: 1, RoutingType: vr.U8("rtype"), SegmentsLeft: vr.U8("segleft"), Data: util.NewBuffer(vr.Bytes("rdata", 12))}
